@@ -42,7 +42,7 @@ class BuildResult:
 
 
 _SUB_RE = re.compile(r"sub\s+(\S+)\s+`(.*?)`\s*=>\s*`(.*?)`\s*(x\d+|\*|\?)?\s*$")
-_HINT_RE = re.compile(r"hint\s+(before|after)\s+(?:(\d+)\s+)?`(.*)`\s*$")
+_HINT_RE = re.compile(r"hint\s+(before|after|start|loopstart)\s*(?:(\d+)\s*)?(?:`(.*)`)?\s*$")
 
 
 def _variant_filter(lines, variant):
@@ -88,6 +88,8 @@ def _apply_rules(toks, rule_list, log, where, kind):
             toks = R.r4_asserts(toks, log, where)
         elif r == "R5":
             toks = R.r5_logs(toks, log, where)
+        elif r == "R6":
+            toks = R.r6_opaque_text(toks, log, where)
         else:
             raise ValueError("unknown automatic rule " + r)
     return toks
@@ -115,7 +117,7 @@ def build(template_path, repo, variant="strict"):
     res = BuildResult()
     tl = _read_template(template_path, variant)
     out = []  # (text, origin)
-    default_rules = ["R1", "R2", "R3", "R4", "R5"]
+    default_rules = ["R1", "R2", "R3", "R4", "R5", "R6"]
     i = 0
     impl_ctx = None
     while i < len(tl):
@@ -306,11 +308,20 @@ def build(template_path, repo, variant="strict"):
                     pieces.append((body[prev:idx], ins[idx]))
                     prev = idx
                 pieces.append((body[prev:], None))
-                for (ptoks, content) in pieces:
+                loopstart = {}
+                for (pos, nth, anchor, content, o2) in opts["hints"]:
+                    if pos == "loopstart":
+                        if nth < 1 or nth > len(loops):
+                            res.lost.append("%s: loopstart hint: loop %d not found" % (where, nth))
+                        else:
+                            loopstart.setdefault(loops[nth - 1], []).extend(content)
+                prev_idx = None
+                order = sorted(ins)
+                for pi, (ptoks, content) in enumerate(pieces):
                     pl = _toks_to_lines(ptoks, relfile, src_line_of)
-                    if body_lines and pl:
-                        # join first line of this piece with nothing: start on a new line
-                        pass
+                    if pi > 0 and order[pi - 1] in loopstart and pl:
+                        # this piece starts with the loop's opening brace: put the hint right after that line
+                        pl[1:1] = [("        " + ctext, corig) for (ctext, corig) in loopstart[order[pi - 1]]]
                     body_lines.extend(pl)
                     if content is not None:
                         for (ctext, corig) in content:
@@ -319,6 +330,13 @@ def build(template_path, repo, variant="strict"):
                 body_lines = _toks_to_lines(body, relfile, src_line_of)
             # hints (line based on rewritten body)
             for (pos, nth, anchor, content, o2) in opts["hints"]:
+                if pos == "loopstart":
+                    continue
+                if pos == "start":
+                    # right after the opening brace of the body: never lost
+                    q0 = next(q for q, (t, o) in enumerate(body_lines) if "{" in t)
+                    body_lines[q0 + 1:q0 + 1] = [("        " + ctext, corig) for (ctext, corig) in content]
+                    continue
                 if anchor.startswith("^"):
                     # `^text`: the whole (stripped) line equals text
                     hits = [q for q, (t, o) in enumerate(body_lines) if t.strip() == anchor[1:] and not isinstance(o, tuple)]
